@@ -159,22 +159,3 @@ Definition chain_eqb (a b : chain) : bool := list_eqb str_eqb a b.
 Definition obs_eqb (a b : list (N * chain)) : bool :=
   list_eqb (fun x y => N.eqb (fst x) (fst y) && chain_eqb (snd x) (snd y)) a b.
 Definition text_of (b : list (N * chain)) : str := map fst b.
-
-(* the replacement text of an alias begins where a shallower or unrelated origin
-   ends, directly behind an operator character that the first character of the
-   replacement could extend: there the already delimited operator token and
-   the replacement stay two tokens although the text reads as one (see
-   props/C17.json, "assumptions"); such inputs are outside the textual claim *)
-Fixpoint is_suffix_of (a b : chain) : bool :=   (* a is a suffix of b *)
-  chain_eqb a b || match b with [] => false | _ :: b' => is_suffix_of a b' end.
-
-Definition op_left (c : N) : bool := (c =? 38) || (c =? 59) || (c =? 60) || (c =? 62) || (c =? 124).
-Definition op_right (c : N) : bool :=
-  (c =? 38) || (c =? 59) || (c =? 60) || (c =? 62) || (c =? 124) || (c =? 40) || (c =? 45).
-
-Fixpoint left_merge (b : list (N * chain)) : bool :=
-  match b with
-  | x :: ((y :: _) as b') =>
-      (op_left (fst x) && op_right (fst y) && negb (is_suffix_of (snd y) (snd x))) || left_merge b'
-  | _ => false
-  end.
